@@ -338,6 +338,12 @@ func (p *printer) attrs(as []Attr, depth int) {
 			} else {
 				fmt.Fprintf(&p.sb, "%sclass={ env.K(1), templ.KV(env.K(2), env.C(%s)) }", sep, num(a.C))
 			}
+		case "cssclassx":
+			if p.v == 1 {
+				fmt.Fprintf(&p.sb, "%sclass={tinted(\"green\")}", sep)
+			} else {
+				fmt.Fprintf(&p.sb, "%sclass={ tinted(\"green\") }", sep)
+			}
 		case "cssclass":
 			if p.v == 1 {
 				fmt.Fprintf(&p.sb, "%sclass={boxed()}", sep)
